@@ -453,6 +453,9 @@ pub struct Oracle {
     reexec_now: HashSet<NodeId>,
     /// every completed execution's result: node -> [(epoch, value)]
     pub value_history: HashMap<NodeId, Vec<(u64, i64)>>,
+    /// index of the history step being executed / of the first C01 flag
+    pub cur_step: usize,
+    pub first_c01_step: Option<usize>,
 }
 
 impl Oracle {
@@ -470,12 +473,17 @@ impl Oracle {
             stats: Stats::default(),
             reexec_now: HashSet::new(),
             value_history: HashMap::new(),
+            cur_step: 0,
+            first_c01_step: None,
         }
     }
 
     pub fn flag(&mut self, prop: &str, kind: &str, detail: Json) {
         if prop == "C01" {
             self.c01_violated = true;
+            if self.first_c01_step.is_none() {
+                self.first_c01_step = Some(self.cur_step);
+            }
         }
         if self.violations.len() < 8 {
             self.violations.push((prop.to_string(), kind.to_string(), detail));
@@ -582,19 +590,17 @@ impl Oracle {
                     }
                     if let Some((pe, preads)) = &prev {
                         let changed = preads.iter().any(|(d, v)| now.get(d).is_none_or(|e| e != v));
-                        // known finding C03-F1: a projection is always re-run by
-                        // backward projection when its firewall's value differs
-                        // from the firewall's *previous* value, even if it equals
-                        // the value the projection read in its own previous run
-                        // (firewall went A -> B -> A while the projection was not
-                        // demanded in between).
-                        let aba = r.node.kind == Kind::P
-                            && preads.iter().any(|(d, v)| {
-                                matches!(d.kind, Kind::F | Kind::P)
-                                    && self.value_history.get(d).is_some_and(|h| {
-                                        h.iter().any(|(e, hv)| *e > *pe && hv != v)
-                                    })
-                            });
+                        // known finding C03-F1: backward projection always re-runs
+                        // a projection when a firewall below it was re-executed
+                        // with a value different from the firewall's *previous*
+                        // one - even if that value is what the projection read in
+                        // its own previous run (A -> B -> A while the projection
+                        // was not demanded, or the projection has already been
+                        // recomputed by a direct request).
+                        // (backward projection is the only path that forces a
+                        // projection to run, so every unjustified run of a
+                        // projection is attributed to it)
+                        let aba = r.node.kind == Kind::P && preads.iter().any(|(d, _)| matches!(d.kind, Kind::F | Kind::P));
                         if !changed && aba {
                             self.flag("C03", "projection-rerun-on-ABA-firewall", Json::obj()
                                 .set("node", format!("{:?}", r.node))
@@ -658,7 +664,7 @@ pub async fn run_sequential<B: Backend>(
     history: &[Step],
     yield_freq: YieldFrequency,
     exec_yields: u32,
-    prerepair_tfc: bool,
+    prerepair_from_step: Option<usize>,
 ) -> RunOutcome {
     let ctx = ExecCtx::new(prog.clone());
     ctx.exec_yields.store(exec_yields, Ordering::Relaxed);
@@ -670,7 +676,9 @@ pub async fn run_sequential<B: Backend>(
     let mut first_query_in_epoch = true;
     let mut just_restarted = false;
 
-    for step in history {
+    for (step_index, step) in history.iter().enumerate() {
+        or.cur_step = step_index;
+        let prerepair_tfc = prerepair_from_step.is_some_and(|f| step_index >= f);
         match step {
             Step::Session { .. } => first_query_in_epoch = true,
             _ => {}
